@@ -158,6 +158,7 @@ bool Action::stop() {
   LogDbg("stop action %d:%s[%s]", id_, type_.c_str(), label_.c_str());
 
   state_ = State::kStoped;
+  auto last_reset_count = reset_count_;
 
   if (timer_ev_ != nullptr)
     timer_ev_->disable();
@@ -172,7 +173,9 @@ bool Action::stop() {
   if (!is_base_func_invoked_)
     LogWarn("%d:%s[%s] didn't invoke base func", id_, type_.c_str(), label_.c_str());
 
-  onFinal();
+  //! onStop() 停止子动作时，子动作的 final 回调可能已 reset() 了本动作：那一轮已不存在，不再回调 final
+  if (last_reset_count == reset_count_)
+    onFinal();
 
   return true;
 }
@@ -184,6 +187,7 @@ bool Action::finish(bool is_succ, const Reason &why, const Trace &trace) {
            (is_succ? "succ" : "fail"));
 
     state_ = State::kFinished;
+    finish_reset_count_ = reset_count_;
 
     if (timer_ev_ != nullptr)
       timer_ev_->disable();
@@ -195,7 +199,9 @@ bool Action::finish(bool is_succ, const Reason &why, const Trace &trace) {
     if (!is_base_func_invoked_)
       LogWarn("%d:%s[%s] didn't invoke base func", id_, type_.c_str(), label_.c_str());
 
-    onFinal();
+    //! onFinished() 停止子动作时，子动作的 final 回调可能已 reset() 了本动作：那一轮已不存在，不再回调 final
+    if (finish_reset_count_ == reset_count_)
+      onFinal();
     return true;
 
   } else {
@@ -311,6 +317,12 @@ void Action::onBlock(const Reason &why, const Trace &trace) {
 }
 
 void Action::onFinished(bool is_succ, const Reason &why, const Trace &trace) {
+  //! 派生类的 onFinished() 先停止子动作；其间子动作的 final 回调若 reset() 了本动作，这一轮的结果与通知都作废
+  if (finish_reset_count_ != reset_count_) {
+    is_base_func_invoked_ = true;
+    return;
+  }
+
   result_ = is_succ ? Result::kSuccess : Result::kFail;
 
   if (finish_cb_) {
